@@ -54,6 +54,9 @@ const (
 	QUIT
 )
 
+// errMessageTooLarge is returned by readDataBlock when DATA exceeds MaxMessageBytes.
+var errMessageTooLarge = errors.New("message exceeds maximum size")
+
 // fromRegex captures the from address and optional parameters.  Matches FROM, while accepting '>'
 // as quoted pair and in double quoted strings (?i) makes the regex case insensitive, (?:) is
 // non-grouping sub-match.  Accepts empty angle bracket value in options for 'AUTH=<>'.
@@ -556,6 +559,13 @@ func (s *Session) mailHandler(cmd string, arg string) {
 func (s *Session) dataHandler() {
 	s.send("354 Start mail input; end with <CRLF>.<CRLF>")
 	msgBuf, err := s.readDataBlock()
+	if err == errMessageTooLarge {
+		// The oversized message has been consumed and discarded; the session stays usable.
+		s.send("552 Max message size exceeded")
+		s.logger.Warn().Msgf("Client sent more than %v bytes of DATA", s.config.MaxMessageBytes)
+		s.reset()
+		return
+	}
 	if err != nil {
 		if netErr, ok := err.(net.Error); ok {
 			if netErr.Timeout() {
@@ -623,9 +633,23 @@ func (s *Session) readDataBlock() ([]byte, error) {
 	if err := s.conn.SetReadDeadline(s.nextDeadline()); err != nil {
 		return nil, err
 	}
-	b, err := s.text.ReadDotBytes()
+	// Equivalent to ReadDotBytes, but never buffers more than the configured maximum.
+	dr := s.text.DotReader()
+	var r io.Reader = dr
+	maxBytes := int64(s.config.MaxMessageBytes)
+	if maxBytes > 0 {
+		r = io.LimitReader(dr, maxBytes+1)
+	}
+	b, err := io.ReadAll(r)
 	if err != nil {
 		return nil, err
+	}
+	if maxBytes > 0 && int64(len(b)) > maxBytes {
+		// Consume the rest of the data block so the dialogue stays in sync.
+		if _, err := io.Copy(io.Discard, dr); err != nil {
+			return nil, err
+		}
+		return nil, errMessageTooLarge
 	}
 	if s.debug {
 		fmt.Printf("%04d   Received %d bytes\n", s.id, len(b))
